@@ -693,3 +693,64 @@ Proof.
   destruct (run n t1 ss) as [t2 cs]. destruct (ref_run n (rows_of t1) ss) as [rows2 cs'].
   simpl in *. split; congruence.
 Qed.
+
+(* ------------------------------------------------------------------ the pipeline at the pinned commit (constant WHERE) *)
+Lemma cf2_sound {A B} (f : A -> A -> B) x y vx vy v :
+  (forall c, x = Some c -> vx = c) -> (forall c, y = Some c -> vy = c) ->
+  cf2 f x y = Some v -> lift2 f vx vy = v.
+Proof.
+  intros Hx Hy H.
+  destruct x as [[a|]|], y as [[b|]|]; simpl in H; inversion H; subst;
+    try rewrite (Hx _ eq_refl); try rewrite (Hy _ eq_refl); try reflexivity;
+    destruct vx; reflexivity.
+Qed.
+
+Lemma cfold_i_sound : forall e v, cfold_i e = Some v -> forall r, eval_i r e = v.
+Proof.
+  induction e; intros v H r; simpl in *; try discriminate; try (inversion H; reflexivity);
+    (eapply cf2_sound; [| | exact H]; intros c Hc; [apply IHe1 | apply IHe2]; exact Hc).
+Qed.
+
+Lemma and3_false_r x : and3 x (Some false) = Some false.
+Proof. destruct x as [[]|]; reflexivity. Qed.
+Lemma or3_true_r x : or3 x (Some true) = Some true.
+Proof. destruct x as [[]|]; reflexivity. Qed.
+
+Lemma cfold_b_sound : forall p v, cfold_b p = Some v -> forall r, eval_b r p = v.
+Proof.
+  induction p; intros v H r; simpl in *.
+  - inversion H; reflexivity.
+  - inversion H; reflexivity.
+  - eapply cf2_sound; [| | exact H]; intros c Hc; apply cfold_i_sound; exact Hc.
+  - destruct (cfold_b p1) as [[[]|]|]; destruct (cfold_b p2) as [[[]|]|]; inversion H; subst;
+      try rewrite (IHp1 _ eq_refl r); try rewrite (IHp2 _ eq_refl r); try reflexivity;
+      apply and3_false_r.
+  - destruct (cfold_b p1) as [[[]|]|]; destruct (cfold_b p2) as [[[]|]|]; inversion H; subst;
+      try rewrite (IHp1 _ eq_refl r); try rewrite (IHp2 _ eq_refl r); try reflexivity;
+      apply or3_true_r.
+  - destruct (cfold_b p) as [x|]; simpl in H; inversion H; subst. rewrite (IHp _ eq_refl r). reflexivity.
+  - destruct (cfold_i a) as [x|] eqn:E; simpl in H; inversion H; subst. rewrite (cfold_i_sound a x E r). reflexivity.
+  - destruct (cfold_i a) as [x|] eqn:E; simpl in H; inversion H; subst. rewrite (cfold_i_sound a x E r). reflexivity.
+Qed.
+
+(* a WHERE clause that folds away selects no row at all *)
+Theorem folds_away_no_row w : folds_away w = true -> forall r, holds w r = false.
+Proof.
+  destruct w as [p|]; simpl; [|discriminate]. intros H r.
+  destruct (cfold_b p) as [v|] eqn:E; [|discriminate].
+  rewrite (cfold_b_sound p v E r). destruct v as [[]|]; [discriminate | reflexivity | reflexivity].
+Qed.
+
+(* ... and yet the statement is executed as if it had no WHERE clause *)
+Theorem upstream_constant_where_refuted :
+  exists t w,
+    (forall r, holds w r = false) /\ rows_of t <> [] /\
+    rows_of (fst (step_upstream 3 t (SDelete w))) = [] /\
+    snd (step_upstream 3 t (SDelete w)) = zlen (rows_of t) /\
+    snd (step_upstream 3 t (SUpdate [(0%nat, ILit 9)] w)) = zlen (rows_of t).
+Proof.
+  exists [[[[Some 1; None; Some 2]; [None; Some 0; Some 3]]]; [[[Some 0; Some 0; Some 0]]]].
+  exists (Some (BAnd (BCmp CGt (ICol 0) (ILit 0)) (BLit false))).
+  split; [apply folds_away_no_row; reflexivity|].
+  split; [discriminate|]. vm_compute. repeat split.
+Qed.
